@@ -402,6 +402,28 @@ def _r5_fits_tiler(run):
         for cc in cfg.calls_at(n):
             if callee_attr(cc) in POPULATE_OTHER | POPULATE_BUILDER or id(cc) in dyn:
                 pops.add(n.id)          # (a dispatch whose names are not determinable is reported below, not as a violation)
+    # a procedure-like helper of the tiler (`self._reuse_existing_out_dir(..)`) every normal path of which passes a populate step
+    # is a populate step itself (two levels of helpers are followed)
+    def _always_populates(h, depth=0):
+        hc = CFG(h.node)
+        hp = set()
+        for m in hc.nodes:
+            for cc in hc.calls_at(m):
+                if callee_attr(cc) in POPULATE_OTHER | POPULATE_BUILDER:
+                    hp.add(m.id)
+                elif depth < 2:
+                    g2 = common.resolve_callee(project, h, cc)
+                    if g2 is not None and g2.module.kind == "py" and g2.cls is h.cls and g2 is not h and _always_populates(g2, depth + 1):
+                        hp.add(m.id)
+        return bool(hp) and hc.exit.id not in hc.reachable(hc.entry.id, avoid=hp, skip_labels=("exc",))
+    for n in cfg.nodes:
+        for cc in cfg.calls_at(n):
+            if n.id in pops or callee_attr(cc) in POPULATE_OTHER | POPULATE_BUILDER:
+                continue
+            h = common.resolve_callee(project, f, cc)
+            if h is not None and h.module.kind == "py" and h.cls is f.cls and h is not f and _always_populates(h):
+                run.note_func(h)
+                pops.add(n.id)
     # `if self._reuse_existing(...): return`: a helper that answers "reused" (a true value) only after it has restored the builder
     # fills it on exactly the paths where its caller believes it -- the true branch of the test starts filled
     for n in cfg.nodes:
